@@ -265,6 +265,77 @@ def bestContainment (find : Finder) (empty : Bool) (query : MH) (bp : Nat) : Exc
     | [] => .ok []
     | h :: _ => .ok (hits.filter (fun x => ge x.score.toF h.score.toF))
 
+/-! ### the list-like containers: what `signatures_with_location()` yields
+
+Every container below inherits `Index.find` (the loop above) and differs only in the list it
+iterates; a "location" is carried along with each signature and does not influence the search. -/
+
+/-- one source of signatures (a file, a loaded index) with its location -/
+structure Part where
+  loc : Nat
+  entries : List (Nat × MH)
+
+/-- `LinearIndex.signatures()` : the list itself -/
+def sigsLinear (l : List (Nat × MH)) : List (Nat × MH) := l
+
+/-- `LazyLinearIndex.signatures_with_location()` : `self.db.select(**selection_dict)` evaluated at
+    search time, then the wrapped database's list -/
+def sigsLazy (select : MH → Bool) (l : List (Nat × MH)) : List (Nat × MH) := l.filter (fun e => select e.2)
+
+/-- `ZipFileLinearIndex.signatures()` with a manifest: every file named by `manifest.locations()`,
+    each signature kept `if ss in manifest` -/
+def sigsZip (files : List Part) (locations : List Nat) (inManifest : MH → Bool) : List (Nat × MH) :=
+  locations.flatMap (fun l =>
+    match files.find? (fun p => p.loc == l) with
+    | some p => p.entries.filter (fun e => inManifest e.2)
+    | none => [])
+
+/-- `MultiIndex.signatures_with_location()` : the manifest rows in order (all parts chained), each
+    with the internal location of its part -/
+def sigsMulti (parts : List Part) : List (Nat × MH) := parts.flatMap (fun p => p.entries)
+
+/-- the location `MultiIndex` reports for an entry -/
+def locMulti (parts : List Part) (idx : Nat) : Option Nat :=
+  (parts.find? (fun p => p.entries.any (fun e => e.1 == idx))).map (fun p => p.loc)
+
+/-- `StandaloneManifestIndex._signatures_with_internal()` : for each location of the manifest, load
+    that file as an index, `select(picklist=manifest.to_picklist())`, yield its signatures -/
+def sigsManifest (files : List Part) (locations : List Nat) (picked : MH → Bool) : List (Nat × MH) :=
+  locations.flatMap (fun l =>
+    match files.find? (fun p => p.loc == l) with
+    | some p => p.entries.filter (fun e => picked e.2)
+    | none => [])
+
+/-! ### `Index.search_abund` (abundance-weighted search) -/
+
+/-- `search_abund(query, threshold=)`: both sides must track abundances (`TypeError`), the score is
+    `query.similarity(subj, downsample=True)` (angular similarity: `sim`, C05's subject), kept when
+    `score >= threshold` (no `score != 0` test here), sorted by descending score -/
+def searchAbundLoop (sim : MH → MH → Except SErr F) (thr : F) (q : MH) :
+    List (Nat × MH) → Except SErr (List (Nat × F))
+  | [] => .ok []
+  | (i, subj) :: rest =>
+    if !subj.trackAbundance then .error .typeErr
+    else
+      match sim q subj with
+      | .error e => .error e
+      | .ok score =>
+        match searchAbundLoop sim thr q rest with
+        | .error e => .error e
+        | .ok hits => if ge score thr then .ok ((i, score) :: hits) else .ok hits
+
+def insertDescF (x : Nat × F) : List (Nat × F) → List (Nat × F)
+  | [] => [x]
+  | y :: ys => if ge x.2 y.2 then x :: y :: ys else y :: insertDescF x ys
+
+def searchAbund (sim : MH → MH → Except SErr F) (thr : F) (q : MH) (db : List (Nat × MH)) :
+    Except SErr (List (Nat × F)) :=
+  if !q.trackAbundance then .error .typeErr
+  else
+    match searchAbundLoop sim thr q db with
+    | .error e => .error e
+    | .ok hits => .ok (hits.foldr insertDescF [])
+
 /-! ### Sequence Bloom Tree -/
 
 /-- an SBT as the search sees it: a leaf holds a signature, an internal node the set its Bloom
